@@ -67,9 +67,11 @@ def _throughput_pattern_sites(trk_mod):
 
 
 def throughput_pattern_rule(chk, rid, trk_mod):
-    """The pattern Task.target_throughput parses a string target with, decided on the regex syntax tree (re._parser; nothing is matched): the pattern is exactly
-    <value group> <one whitespace> <unit group> and the decimal point with the fraction digits lies INSIDE the value group — shared with C10 (the loaded throughput target is the
-    number written in the file). The pattern is located by role (the regex constant / literal the property refers to), not by its name; not found => inconclusive, never falsified."""
+    """The pattern Task.target_throughput parses a string target with — shared with C10 (the loaded throughput target is the number written in the file). Decided twice:
+    on VALUES (the extracted pattern literal, compiled by the standard library, is matched against '2.5 docs/s', '0.5 ops/s', '12.25 pages/s', '100 ops/s': its first group must
+    be the whole number text, its last group the unit) and, where the pattern has the plain form <value group> <one whitespace> <unit group> (zero-width anchors aside), on the
+    regex syntax tree (re._parser): the decimal point lies INSIDE the value group. A pattern of another form (anchored, non-capturing sub-groups, ...) is judged by what it
+    captures, not by how it is written. The pattern is located by role (the regex constant / literal the property refers to), not by its name; not found => inconclusive."""
     TKc = trk_mod.cls("Task")
     sites = _throughput_pattern_sites(trk_mod)
     if len(sites) != 1:
@@ -84,7 +86,8 @@ def throughput_pattern_rule(chk, rid, trk_mod):
         chk.ob(rid, "throughput pattern == <value incl. fraction> <space> <unit>: nothing of the number outside the value group", False, site, f"pattern not parseable: {e}",
                key="esrally/track/track.py:Task.THROUGHPUT_PATTERN:value-group-covers-fraction")
         return
-    items = list(tree)
+    all_items = list(tree)
+    items = [(op, av) for op, av in all_items if str(op) != "AT"]  # `^` / `$` / `\\b` consume nothing
     names = {v: k for k, v in tree.state.groupdict.items()}
     groups = [(av[0], av[3]) for op, av in items if str(op) == "SUBPATTERN"]
     # roles by position: the first top-level group captures the value, the last one the unit (their names are an agreement between the pattern and its reader, checked by value in O5.6)
@@ -106,8 +109,19 @@ def throughput_pattern_rule(chk, rid, trk_mod):
 
     exact = shape == ["group", "IN", "group"] and len(groups) == 2
     vgrp = groups[0][1] if groups else None
-    ok = exact and "." in lits(vgrp)
-    detail = f"top-level sequence: {[names.get(av[0], 'group') if str(op) == 'SUBPATTERN' else str(op) for op, av in items]}; literals inside the value group: {sorted(lits(vgrp)) if vgrp is not None else None}" + \
+    # on values: what the pattern captures for representative targets
+    if len(groups) < 2 or groups[0][0] is None or groups[-1][0] is None:
+        chk.unknown(rid, f"the pattern {text!r} Task.target_throughput refers to has no two top-level capturing groups: value / unit are not located in it", site)
+        return
+    import re as _re
+    reads = []
+    for num, unit in (("2.5", "docs/s"), ("0.5", "ops/s"), ("12.25", "pages/s"), ("100", "ops/s")):
+        mt = _re.match(text, f"{num} {unit}")
+        got = (mt.group(groups[0][0]), mt.group(groups[-1][0])) if mt is not None else None  # roles by position: first top-level group = value, last = unit
+        reads.append((f"{num} {unit}", got, got == (num, unit)))
+    ok = all(r_[2] for r_ in reads) and (not exact or "." in lits(vgrp))
+    detail = f"top-level sequence: {[names.get(av[0], 'group') if str(op) == 'SUBPATTERN' else str(op) for op, av in all_items]}; literals inside the value group: {sorted(lits(vgrp)) if vgrp is not None else None}; " \
+        + "captured (value, unit): " + ", ".join(f"{t_!r} => {g_}" for t_, g_, _ in reads) + \
         ("" if ok else " — part of the number lies outside the value group: '2.5 docs/s' is read as 2, '0.5 ops/s' as 0 (unthrottled)")
     chk.ob(rid, "throughput pattern == <value incl. fraction> <space> <unit>: nothing of the number outside the value group", ok, site, detail,
            key="esrally/track/track.py:Task.THROUGHPUT_PATTERN:value-group-covers-fraction")
@@ -170,14 +184,22 @@ def partition_call_rule(chk, rid, drv):
     """schedule_for partitions the task's parameter source with (task-local client index, the TASK's client count) — shared with C02 / C03 (slices must tile the corpus).
     Decided on values: schedule_for is walked by the local machine for an allocation that is client 1 of the 3 clients of its task and client 5 of the 8 clients of the schedule
     element; the arguments that reach the call on the parameter source must be (1, 3) - whatever locals they pass through and whichever helper makes the call."""
-    sfn = drv.func("schedule_for")
+    try:
+        sfn = drv.func("schedule_for")
+    except AnchorMissing as e:
+        chk.unknown(rid, f"anchor missing: {e}")
+        return
     try:
         run_ = _ScheduleRun(drv, {"warmup_iterations": 3, "iterations": 7})
-    except CannotEval as e:
+    except (CannotEval, AnchorMissing) as e:
         chk.unknown(rid, f"schedule_for is not evaluable on the representative allocation: {e}", sfn)
         return
     if not run_.partition:
         chk.unknown(rid, "schedule_for makes no call on the parameter source it is given" + (f" (it raises {run_.error})" if run_.error else "") + ": the partitioning is not located", sfn)
+        return
+    if _unknown(*[a for _, a in run_.partition]) is not None:
+        chk.unknown(rid, f"an argument of the call on the parameter source is a value the walk of schedule_for does not know ({_unknown(*[a for _, a in run_.partition])!r}): "
+                    "the partition arguments are not located", sfn)
         return
     nums = [[x for x in a if isinstance(x, int) and not isinstance(x, bool)] for _, a in run_.partition]
     ok = len(run_.partition) == 1 and nums[0] == [1, 3] and len(run_.partition[0][1]) == 2
@@ -193,6 +215,7 @@ def partition_call_rule(chk, rid, drv):
 # repository is imported or executed; of the standard library only `re` (on pattern literals extracted from the source) and `numbers.Number` are consulted. A construct the
 # machine does not model raises CannotEval => the rule is inconclusive, never a verdict. A renamed local / attribute / parameter, an extracted helper, a guard clause, a merged
 # or split loop, a named constant are all invisible to a rule stated this way: only the values that reach the observed calls / fields count.
+import collections as _collections
 import numbers as _numbers
 import re as _re_mod
 
@@ -334,6 +357,26 @@ def _concrete(v, depth=0):
     return isinstance(v, _CONCRETE)
 
 
+def _keyable(k, depth=0):
+    """a table key the machine can look up: a literal, an object of the machine (hashed by identity, like the Task / enum-member objects of the analysed code) or a tuple of those"""
+    if isinstance(k, tuple):
+        return depth < 3 and all(_keyable(x, depth + 1) for x in k)
+    return isinstance(k, (str, int, float, bool, type(None), frozenset, _Obj, _Opaque, _Cls, _Fn))
+
+
+def _unknown(*vals):
+    """the first of `vals` (looking into lists / tuples) that is a value the machine does NOT know (result of an unmodelled call, attribute of an unmodelled object, arithmetic on
+    one of those), else None. A rule that judges a value the walk produced asks this first: an unknown value is `not recognised`, never `wrong`."""
+    for v in vals:
+        if isinstance(v, (_Opaque, _BoundHook)):
+            return v
+        if isinstance(v, (list, tuple)):
+            x = _unknown(*v)
+            if x is not None:
+                return x
+    return None
+
+
 class _Machine:
     def __init__(self, mod, budget=20000, on_opaque_call=None, on_yield=None, on_await=None, overrides=None):
         self.mod, self.budget, self.steps = mod, budget, 0
@@ -413,7 +456,7 @@ class _Machine:
 
     @staticmethod
     def _decos(f):
-        return {(dotted(d) or "").split(".")[-1] for d in f.decorator_list}
+        return {(dotted(d.func if isinstance(d, ast.Call) else d) or "").split(".")[-1] for d in f.decorator_list}  # @dataclass and @dataclass(eq=False) alike
 
     def instantiate(self, c, args, kwargs, node=None):
         base_names = {(dotted(b) or "").split(".")[-1] for k in self.mro(c.node) for b in k.bases}
@@ -432,7 +475,17 @@ class _Machine:
                 raise _Rse(_Opaque("TypeError(constructor arguments)"), node)
             obj.fields.update(dict(zip(fields, args)))
             obj.fields.update(kwargs)
+            for k in reversed(self.mro(c.node)):  # field defaults of the generated constructor
+                for st in k.body:
+                    if isinstance(st, ast.AnnAssign) and isinstance(st.target, ast.Name) and st.value is not None and st.target.id not in obj.fields:
+                        obj.fields[st.target.id] = self.ev(st.value, _Env())
+            missing = [f_ for f_ in fields if f_ not in obj.fields]
+            if missing:
+                raise _Rse(_Opaque(f"TypeError(missing argument {missing[0]})"), node)
             obj.ctor, obj.ctor_pos = dict(obj.fields), list(args)
+            post = self.class_member(c.node, "__post_init__")
+            if isinstance(post, (ast.FunctionDef, ast.AsyncFunctionDef)):
+                self.call(_Fn(post, self_=obj), [], {}, node)
             return obj
         obj.ctor_pos = list(args)
         return obj
@@ -529,6 +582,13 @@ class _Machine:
                     return r
             if f.label == "collections.namedtuple" and len(args) == 2 and isinstance(args[0], str) and isinstance(args[1], (list, tuple, str)):
                 return _NT(args[0], args[1].replace(",", " ").split() if isinstance(args[1], str) else list(args[1]))
+            # the standard tables of `collections` are tables (a diagnostics counter `collections.Counter()` next to the analysed statements must not end the walk)
+            if f.label == "collections.Counter" and not args and not kwargs:
+                return _collections.Counter()
+            if f.label == "collections.OrderedDict" and not args and not kwargs:
+                return {}
+            if f.label == "collections.defaultdict" and len(args) == 1 and not kwargs and isinstance(args[0], _Builtin) and args[0].name in ("int", "float", "list", "dict", "set"):
+                return _collections.defaultdict({"int": int, "float": float, "list": list, "dict": dict, "set": set}[args[0].name])
             return _Opaque(f.label + "(...)", "object", args, kwargs)
         if isinstance(f, _Sym):
             return _Sym("call", f, *args)
@@ -797,6 +857,10 @@ class _Machine:
                     raise _Rse(_Opaque(type(x).__name__), e)
             if _concrete(a) and _concrete(b):
                 raise _Rse(_Opaque("TypeError"), e)
+            if isinstance(a, _Opaque) or isinstance(b, _Opaque):
+                # arithmetic on a value the machine does not know gives a value it does not know: it can be stored and passed on (a diagnostics counter kept on an unmodelled
+                # object), it never decides a branch, an ordering or a sleep (those raise CannotEval) and a rule never judges it (_unknown)
+                return _Opaque(f"({getattr(a, 'label', a)} {type(e.op).__name__} {getattr(b, 'label', b)})"[:120], "attr")
             raise CannotEval(f"arithmetic on {a!r} and {b!r}")
         if isinstance(e, (ast.Tuple, ast.List, ast.Set)):
             vals = []
@@ -828,7 +892,7 @@ class _Machine:
                 return o.fields.setdefault(f"[{k!r}]", _Opaque(f"{o.label}[{k!r}]", "attr"))
             if isinstance(o, _Sym):
                 return _Sym("item", o, k)
-            if isinstance(o, (dict, list, tuple, str, _re_mod.Match)) and _concrete(k):
+            if isinstance(o, (dict, list, tuple, str, _re_mod.Match)) and (_concrete(k) or (isinstance(o, dict) and _keyable(k))):
                 try:
                     return o[k]
                 except (KeyError, IndexError, TypeError) as x:
@@ -1030,22 +1094,44 @@ class _ExecutorRun:
       sleeps   [(virtual time before the sleep, duration)]
       calls    [(method called on the handle, virtual time, arguments)]"""
 
-    def __init__(self, drv, wait, offset, t0=100.0):
+    @staticmethod
+    def handle_param(drv):
+        """Role: the constructor parameter of AsyncExecutor that receives the schedule handle. (1) by data flow: the argument of the construction AsyncExecutor(...) that carries
+        the result of schedule_for(...) (through single-assignment locals); (2) where the construction is spelled in a way (1) does not follow (built in a helper, arguments
+        unpacked): by behaviour - the one parameter for which the walk of __call__, with the handle stand-in passed there and inert stand-ins everywhere else, issues a request."""
+        cached = getattr(drv, "_c05_handle_param", None)
+        if cached is not None:
+            return cached
+        AE = drv.cls("AsyncExecutor")
+        names = _ctor_params(drv, AE)
+        found = []
+        sites = [c for c in ast.walk(drv.tree) if isinstance(c, ast.Call) and last_attr(c.func) == AE.name and source.enclosing_func(c) is not None]
+        if len(sites) == 1 and not any(isinstance(a, ast.Starred) for a in sites[0].args):
+            site = sites[0]
+            ldefs = local_defs(source.enclosing_func(site))
+
+            def is_handle(e):
+                return any(isinstance(x, ast.Call) and last_attr(x.func) == "schedule_for" for x in ast.walk(source.inline_node(e, ldefs)))
+
+            found = [names[i] for i, a in enumerate(site.args) if i < len(names) and is_handle(a)] + [k.arg for k in site.keywords if k.arg in names and is_handle(k.value)]
+        if len(found) != 1:
+            found = []
+            for nm in names:
+                try:
+                    if _ExecutorRun(drv, 0, 0.5, handle_at=nm).issues:
+                        found.append(nm)
+                except (CannotEval, AnchorMissing):
+                    pass
+        if len(found) != 1:
+            raise AnchorMissing(f"the constructor parameter of AsyncExecutor({', '.join(names)}) that receives the schedule handle (the result of schedule_for(...)): candidates {found}")
+        drv._c05_handle_param = found[0]
+        return found[0]
+
+    def __init__(self, drv, wait, offset, t0=100.0, handle_at=None):
         AE = drv.cls("AsyncExecutor")
         _prop(drv, AE, "__call__")
-        sites = [c for c in ast.walk(drv.tree) if isinstance(c, ast.Call) and last_attr(c.func) == AE.name and source.enclosing_func(c) is not None]
-        if len(sites) != 1 or any(isinstance(a, ast.Starred) for a in sites[0].args):
-            raise AnchorMissing(f"the construction AsyncExecutor(...) in {_D} ({len(sites)} found)")
-        site = sites[0]
-        ldefs = local_defs(source.enclosing_func(site))
-
-        def is_handle(e):
-            return any(isinstance(x, ast.Call) and last_attr(x.func) == "schedule_for" for x in ast.walk(source.inline_node(e, ldefs)))
-
-        hpos = [i for i, a in enumerate(site.args) if is_handle(a)]
-        hkw = [k.arg for k in site.keywords if k.arg and is_handle(k.value)]
-        if len(hpos) + len(hkw) != 1:
-            raise AnchorMissing("the argument of AsyncExecutor(...) that carries the result of schedule_for(...)")
+        names = _ctor_params(drv, AE)
+        handle_at = handle_at if handle_at is not None else self.handle_param(drv)
         self.clock, self.sleeps, self.calls, self.issues, self.t0 = [t0], [], [], [], t0
         run = self
 
@@ -1072,7 +1158,7 @@ class _ExecutorRun:
         self.handle = _Obj("schedule handle", on_load=handle_load, on_call=handle_call)
 
         def inert(i):
-            return _Obj(f"constructor argument {i}", on_call=lambda attr, a, k: False if attr == "is_set" else None, any_completes_parent=False, completes_parent=False)
+            return _Obj(f"constructor argument `{i}`", on_call=lambda attr, a, k: False if attr == "is_set" else None, any_completes_parent=False, completes_parent=False)
 
         def opaque_call(f, args, kwargs):
             if f.label in _CLOCKS and not args and not kwargs:
@@ -1093,8 +1179,8 @@ class _ExecutorRun:
         self.machine = m = _Machine(drv, on_opaque_call=opaque_call)
         m.on_call = observe
         self.error = None
-        ex = m.instantiate(_Cls(AE), [self.handle if i in hpos else inert(i) for i in range(len(site.args))], {k.arg: (self.handle if k.arg in hkw else inert(k.arg)) for k in site.keywords if k.arg})
         try:
+            ex = m.instantiate(_Cls(AE), [self.handle if nm == handle_at else inert(nm) for nm in names], {})
             m.call(m.load(ex, "__call__"), [], {})
         except (_Stop, _Cnt):
             pass
@@ -1174,26 +1260,76 @@ def progress_aggregate_rule(chk, rid, drv):
     """`reported progress never decreases`: what Rally prints for a running step is an aggregate over a per-step table of the most recent sample of each client. Two necessary
     conditions of monotonicity (each also met by a per-step high-water mark `shown = max(shown, value)`):
       (key)  a client that runs two tasks of a parallel element in turn must not overwrite its finished task's 100% with the next task's first sample: the table key separates
-             (client, task). Decided on values: the EXTRACTED key expression of the store in update_samples is evaluated on sample records.
+             (client, task). Decided on values: Driver.update_samples is WALKED by the local machine on shipments of sample objects and the keys under which the samples end
+             up in the table are read off the table (no statement shape is matched: a loop with a subscript store, `table.update({key: s for s in batch})`, a helper method).
       (mean) the divisor must not be the number of clients that have reported SO FAR: a slower client's first report then lowers the mean. Decided on values when the EXTRACTED
              aggregate is a function of the table alone (history: client 0 reports 60%, then client 1 reports 20%); an aggregate that also reads other driver state (the
              allocations of the step, a high-water mark) is accepted, not evaluated (necessary, not sufficient).
-    Roles: table = the self attribute subscripted-and-stored with the loop variable in `for s in <batch parameter>` of update_samples; aggregate = the table-dependent value that
-    flows into the progress reporter's print call in update_progress_message."""
+    Roles: table = the table-valued attribute of the driver that holds the shipped sample object after update_samples([sample]) (by identity of the value, not by name);
+    aggregate = the table-dependent value that flows into the progress reporter's print call in update_progress_message."""
     DR = drv.cls("Driver")
     us, up = _prop(drv, DR, "update_samples"), _prop(drv, DR, "update_progress_message")
-    batch = _param(us, 1)
-    stores = []
-    for loop in [n for n in walk_body(us) if isinstance(n, ast.For) and isinstance(n.iter, ast.Name) and n.iter.id == batch and isinstance(n.target, ast.Name)]:
-        for n in ast.walk(loop):
-            if isinstance(n, ast.Assign) and len(n.targets) == 1 and isinstance(n.targets[0], ast.Subscript) and is_self_attr(n.targets[0].value) \
-                    and isinstance(n.value, ast.Name) and n.value.id == loop.target.id:
-                stores.append((n, loop.target.id, n.targets[0].value.attr, n.targets[0].slice))
-    if len(stores) != 1:
-        raise AnchorMissing(f"`for s in {batch}: self.<table>[<key of s>] = s` in Driver.update_samples ({len(stores)} found)")
-    store, svar, T, kexpr = stores[0]
-    udefs = {k: v for k, v in local_defs(us).items() if k != svar}
-    kexpr = source.inline_node(kexpr, udefs)
+    _param(us, 1)
+
+    class _TaskObj(_Obj):  # a task object that prints readably in the obligation details (compared by identity, like the real Task objects of two tasks)
+        def __repr__(self):
+            return f"<task {self.label}>"
+
+    TA, TB = _TaskObj("a", name="a"), _TaskObj("b", name="b")
+    records = {}  # id(sample object of the walk) -> the same sample as a minieval Record (for the extracted aggregate)
+
+    def sample(client, task, progress):
+        o = _Obj(f"sample(client {client}, task {task.label}, {progress})", client_id=client, task=task, percent_completed=progress)
+        records[id(o)] = (o, Record(client_id=client, task=task, percent_completed=progress))
+        return o
+
+    # containers of the driver: every attribute some method of the class sets to an empty table / list (whatever it is called) starts as one
+    kinds = {}
+    for meth in drv.methods(DR).values():
+        for st in walk_body(meth):
+            if isinstance(st, ast.Assign):
+                v = st.value
+                kind = "dict" if (isinstance(v, ast.Dict) and not v.keys) or (isinstance(v, ast.Call) and dotted(v.func) in ("dict", "collections.OrderedDict") and not v.args and not v.keywords) \
+                    else "list" if (isinstance(v, ast.List) and not v.elts) or (isinstance(v, ast.Call) and dotted(v.func) == "list" and not v.args) else None
+                for t in st.targets:
+                    if is_self_attr(t) and kind:
+                        kinds.setdefault(t.attr, set()).add(kind)
+
+    def feed(history):
+        """Driver.update_samples walked by the local machine once per sample of `history` (a shipment of one sample each) on a driver stand-in; yields the driver's fields after
+        every shipment. A helper method update_samples calls is followed; an attribute nobody initialises to a container is an unmodelled object."""
+        m = _Machine(drv)
+        driver = _Obj("driver", cls=DR, **{a: ({} if k == {"dict"} else []) for a, k in kinds.items() if len(k) == 1})
+
+        def unmodelled(attr):
+            if attr in driver.fields or m.class_member(DR, attr) is not None:
+                return _MISSING
+            return driver.fields.setdefault(attr, _Opaque(f"driver.{attr}"))
+
+        driver.on_load = unmodelled
+        for s_ in history:
+            try:
+                m.call(m.load(driver, us.name), [[s_]], {})
+            except _Rse as x:
+                raise CannotEval(f"the walk of Driver.update_samples on a shipment of one sample raises {x.name()}")
+            yield driver.fields
+
+    def tables_holding(fields, s_):
+        return [(a, [k_ for k_, x in v.items() if x is s_]) for a, v in fields.items() if isinstance(v, dict) and any(x is s_ for x in v.values())]
+
+    # Role: the progress table = the table-valued attribute of the driver that holds the sample itself after update_samples([sample]) - whatever it is called and however it is
+    # filled (a loop with a subscript store, update() with a comprehension, setdefault / a helper method)
+    probe = sample(0, TA, 0.25)
+    held = tables_holding(list(feed([probe]))[-1], probe)
+    if len(held) != 1 or len(held[0][1]) != 1:
+        raise AnchorMissing(f"the table of Driver that holds a shipped sample after update_samples([sample]) ({len(held)} table-valued attribute(s) of the driver hold it: {[a for a, _ in held]})")
+    T = held[0][0]
+    store = next((source.enclosing_stmt(x) for f_ in [us] + [f for f in drv.methods(DR).values() if f is not us and any(isinstance(c, ast.Call) and is_self_attr(c.func) and c.func.attr == f.name for c in walk_body(us))]
+                  for x in walk_body(f_) if is_self_attr(x, T)), us)
+
+    def key_of(s_):
+        """the key under which update_samples files the sample (observed on the walk)"""
+        return tables_holding(list(feed([s_]))[-1], s_)[0][1][0]
 
     def mentions_table(e):
         return any(is_self_attr(x, T) for x in ast.walk(e))
@@ -1221,24 +1357,12 @@ def progress_aggregate_rule(chk, rid, drv):
     stored = {t.attr for st in walk_body(up) if isinstance(st, (ast.Assign, ast.AugAssign)) for t in (st.targets if isinstance(st, ast.Assign) else [st.target]) if is_self_attr(t)}
     hw = sorted({a.attr for c in walk_body(up) if isinstance(c, ast.Call) and dotted(c.func) == "max" for a in c.args if is_self_attr(a) and a.attr != T and a.attr in stored})
 
-    class _Task(Record):  # a task record that prints readably in the obligation details (identity-compared like the real Task objects of two tasks)
-        def __repr__(self):
-            return f"<task {self.fields['name']}>"
-
-    TA, TB = _Task(name="a"), _Task(name="b")
-
-    def sample(client, task, progress):
-        return Record(client_id=client, task=task, percent_completed=progress)
-
-    def key_of(s):
-        return ev(kexpr, {svar: s})
-
     def replay(history):
-        """the reported values after each batch of `history`: the table is filled through the extracted key, the extracted aggregate(s) evaluated on it."""
-        table, out = {}, []
-        for s in history:
-            table[key_of(s)] = s
-            vals = [_evx(a, {"self": Record(**{T: dict(table)})}) for _, a in aggs]
+        """the reported values after each shipment of `history`: the table is filled by the walk of update_samples, the extracted aggregate(s) evaluated on it."""
+        out = []
+        for fields in feed(history):
+            table = {k_: records[id(x)][1] for k_, x in fields[T].items()}
+            vals = [_evx(a, {"self": Record(**{T: table})}) for _, a in aggs]
             out.append(vals[0] if len(vals) == 1 else tuple(vals))
         return out
 
@@ -1250,19 +1374,26 @@ def progress_aggregate_rule(chk, rid, drv):
         k_a, k_a2, k_b, k_c1 = key_of(sample(0, TA, 0.25)), key_of(sample(0, TA, 1.0)), key_of(sample(0, TB, 0.25)), key_of(sample(1, TA, 0.25))
         for k_ in (k_a, k_a2, k_b, k_c1):
             hash(k_)
-    except (CannotEval, TypeError) as e:
-        chk.unknown(rid, f"key of the progress table `{u(kexpr)}` is not evaluable on a sample record (client_id, task, percent_completed): {e}", store)
+    except (CannotEval, TypeError, IndexError) as e:
+        chk.unknown(rid, f"the key under which Driver.update_samples files a sample in self.{T} is not observable on a sample object (client_id, task, percent_completed): {e}", store)
         return
     try:
         wit = "; one client running task a, then task b of the same step is reported as " + pct(replay([sample(0, TA, 0.25), sample(0, TA, 1.0), sample(0, TB, 0.25)]))
     except (CannotEval, TypeError, ZeroDivisionError):
         wit = ""
     chk.ob(rid, "progress table: the samples of one client for two tasks of the step occupy two entries (or the reported value is a per-step high-water mark)", k_a != k_b or bool(hw), store,
-           f"self.{T}[{u(kexpr)}] = {svar}: keys {k_a!r} / {k_b!r} for (client 0, task a) / (client 0, task b)" + (f"; high-water mark self.{hw[0]}" if hw else "") + (wit if k_a == k_b and not hw else ""),
+           f"update_samples files a sample in self.{T} under the keys {k_a!r} / {k_b!r} for (client 0, task a) / (client 0, task b)" + (f"; high-water mark self.{hw[0]}" if hw else "") + (wit if k_a == k_b and not hw else ""),
            key=f"{_D}:Driver.update_samples:progress-table-key:client-with-two-tasks")
     chk.ob(rid, "progress table: two clients occupy two entries", k_a != k_c1, store, f"keys {k_a!r} / {k_c1!r} for (client 0, task a) / (client 1, task a)",
            key=f"{_D}:Driver.update_samples:progress-table-key:two-clients")
-    chk.ob(rid, "progress table: a newer sample of the same client and task replaces the older one", k_a == k_a2, store, f"keys {k_a!r} / {k_a2!r} for two samples of (client 0, task a)",
+    try:
+        older, newer = sample(0, TA, 0.25), sample(0, TA, 0.5)
+        kept = [x for x in list(feed([older, newer]))[-1][T].values()]
+    except CannotEval as e:
+        chk.unknown(rid, f"two shipments for (client 0, task a) in turn are not evaluable: {e}", store)
+        return
+    chk.ob(rid, "progress table: a newer sample of the same client and task replaces the older one", k_a == k_a2 and any(x is newer for x in kept) and not any(x is older for x in kept), store,
+           f"keys {k_a!r} / {k_a2!r} for two samples of (client 0, task a); after shipping a sample at 25% and then one at 50% the table holds {kept}",
            key=f"{_D}:Driver.update_samples:progress-table-key:same-client-and-task")
     # (mean)
     resets = [st for m in drv.methods(DR).values() for st in walk_body(m) if isinstance(st, ast.Assign) and any(is_self_attr(t, T) for t in st.targets)]
@@ -1277,7 +1408,10 @@ def progress_aggregate_rule(chk, rid, drv):
     text = "; ".join(short(a, 150) for _, a in aggs)
     try:
         seq = replay([sample(0, TA, 0.6), sample(1, TA, 0.2)])
-        ok = all(isinstance(v, (int, float)) for v in seq) and seq[1] >= seq[0] - 1e-12
+        if not all(isinstance(v, (int, float)) and not isinstance(v, bool) for v in seq):
+            chk.unknown(rid, f"the value `{text}` that reaches the progress reporter is not a number on a table of sample records ({seq}): the reported progress is not located", site)
+            return
+        ok = seq[1] >= seq[0] - 1e-12
         detail = f"`{text}` is a function of self.{T} alone (reset to an empty table for every step): client 0 reports 60%, then client 1 reports its first sample at 20% => {pct(seq)}" \
             + ("" if ok else (f" before the high-water mark self.{hw[0]} is applied" if hw else ": the mean is taken over the clients that have reported so far"))
     except (CannotEval, TypeError, ZeroDivisionError) as e:
@@ -1303,6 +1437,33 @@ def _section(chk, rid, fn, *args):
 
         chk.unknown(rid, f"checker raised {type(e).__name__}: {e} [{' | '.join(traceback.format_exc().strip().splitlines()[-3:])}]")
     return None
+
+
+def _entry_origins(mod, entry, expr, fn=None, depth=0, same=False):
+    """Data-flow role finder (local helper; sa/source.py has bind_args / inline_node, not their composition over a call chain): the parameters of the function `entry` the value of
+    `expr` - an expression inside `entry` or inside a helper function / method of the same module that `entry` reaches through calls - is computed from (same=True: the parameters
+    it IS, i.e. the value is handed through unchanged). Single-assignment locals are inlined; a parameter of a helper stands for the expression every caller in the module passes
+    for it (source.bind_args), followed towards `entry` (depth-limited)."""
+    fn = fn if fn is not None else source.enclosing_func(expr)
+    if fn is None:
+        return set()
+    inl = source.inline_node(expr, local_defs(fn))
+    names = {inl.id} if same and isinstance(inl, ast.Name) else set() if same else {x.id for x in ast.walk(inl) if isinstance(x, ast.Name) and isinstance(x.ctx, ast.Load)}
+    a = fn.args
+    own = {x.arg for x in a.posonlyargs + a.args + a.kwonlyargs}
+    if fn is entry:
+        return names & own
+    out = set()
+    hit = names & own
+    if not hit or depth > 4:
+        return out
+    for c in ast.walk(mod.tree):
+        if isinstance(c, ast.Call) and last_attr(c.func) == fn.name and source.enclosing_func(c) is not None and source.enclosing_func(c) is not fn:
+            bound = source.bind_args(c, fn)
+            for p_ in hit:
+                if p_ in bound:
+                    out |= _entry_origins(mod, entry, bound[p_], source.enclosing_func(c), depth + 1, same)
+    return out
 
 
 def _value_and_unit(r):
@@ -1406,9 +1567,20 @@ def unit_aware_rule(chk, rid, sch):
     _prop(sch, UA, "next")
     sf = sch.func("scheduler_for")
     sfp = _param(sf, 0)
-    ctor = [c for c in ast.walk(sf) if isinstance(c, ast.Call) and last_attr(c.func) == UA.name]
-    if len(ctor) != 1 or any(isinstance(a, ast.Starred) for a in ctor[0].args):
-        raise AnchorMissing("the construction UnitAwareScheduler(<task>, <delegate class>) in scheduler_for")
+    # Roles by data flow: the construction site is the UnitAwareScheduler(...) call - in scheduler_for or in a helper function it hands the work to - one of whose arguments IS
+    # scheduler_for's task parameter (handed through single-assignment locals and through the parameters of the helpers on the way); that argument is the task, the other one
+    # the delegate class.
+    ctor = []
+    for c in ast.walk(sch.tree):
+        if isinstance(c, ast.Call) and last_attr(c.func) == UA.name and source.enclosing_func(c) is not None and not any(isinstance(a, ast.Starred) for a in c.args) \
+                and not any(k.arg is None for k in c.keywords):
+            from_task = [sfp in _entry_origins(sch, sf, a, same=True) for a in list(c.args) + [k.value for k in c.keywords]]
+            if from_task.count(True) == 1 and len(from_task) == 2:
+                ctor.append((c, from_task))
+    if len(ctor) != 1:
+        raise AnchorMissing(f"the construction UnitAwareScheduler(<the task scheduler_for is called with>, <delegate class>) in scheduler_for or a helper it calls ({len(ctor)} found)")
+    (ctor_site, ctor_from_task), = ctor
+    n_pos = len(ctor_site.args)
     C = 4
 
     def simulate(T, U, feedback, delegate):
@@ -1423,8 +1595,8 @@ def unit_aware_rule(chk, rid, sch):
 
         m = _Machine(sch, on_opaque_call=hook)
         task = _Obj("task", target_throughput=_Obj("throughput", value=T, unit=U), clients=C, name="t")
-        role = lambda e: task if isinstance(e, ast.Name) and e.id == sfp else delegate  # noqa: E731
-        ua = m.instantiate(_Cls(UA), [role(a) for a in ctor[0].args], {k.arg: role(k.value) for k in ctor[0].keywords if k.arg})
+        vals = [task if t else delegate for t in ctor_from_task]
+        ua = m.instantiate(_Cls(UA), vals[:n_pos], {k.arg: v for k, v in zip(ctor_site.keywords, vals[n_pos:])})
         out = []
         for w, unit in feedback:
             del captured[:]
@@ -1447,6 +1619,11 @@ def unit_aware_rule(chk, rid, sch):
         s2, s3 = simulate(100.0, "ops/s", [(5000, "docs"), (2500, "docs")], det), simulate(100.0, "ops/s", [(3, "ops")], det)
     except CannotEval as e:
         chk.unknown(rid, f"UnitAwareScheduler is not evaluable on the representative feedback sequences: {e}", ar)
+        return
+
+    lost = _unknown([g for run_ in (s1, s2, s3) for _, g, _ in run_])
+    if lost is not None:
+        chk.unknown(rid, f"UnitAwareScheduler.next(0) gives a value the walk does not know ({lost!r}) on the representative feedback sequences", ar)
         return
 
     def gaps(run_):
@@ -1492,7 +1669,7 @@ class _ScheduleRun:
         self.runner_completed = runner_completed
         self.task = _Obj("task", clients=3, name="t", schedule=None, operation=_Obj("operation", type="search", name="search"), ramp_up_time_period=ramp_up,
                          **{f: fields.get(f) for f, _, _ in _MIX_FIELDS})
-        self.allocation = _Obj("task_allocation", task=self.task, client_index_in_task=1, global_client_index=5, total_clients=8)
+        self.allocation = self._allocation(drv, m)
 
         def psource_call(attr, args, kwargs):
             self.partition.append((attr, list(args) + list(kwargs.values())))
@@ -1515,6 +1692,26 @@ class _ScheduleRun:
                 if r:
                     self.roles[a] = r
 
+    _ALLOC = (("task", None), ("client_index_in_task", 1), ("global_client_index", 5), ("total_clients", 8))
+
+    def _allocation(self, drv, m):
+        """the allocation object: TaskAllocation of the analysed module instantiated by walking its own constructor (an __init__ or the generated one of a dataclass / NamedTuple),
+        so that what its attributes are called is the module's business; the four values are bound by the constructor's keyword names where it has the documented ones (as the
+        allocator passes them), else by position (task, task-local index, element-wide index, total clients). Without such a class: a stand-in with the documented attributes."""
+        vals = [self.task if v is None else v for _, v in self._ALLOC]
+        try:
+            ta = drv.cls("TaskAllocation")
+            init = m.class_member(ta, "__init__")
+            names = params_of(init)[1:] if isinstance(init, (ast.FunctionDef, ast.AsyncFunctionDef)) else \
+                [st.target.id for k in reversed(m.mro(ta)) for st in k.body if isinstance(st, ast.AnnAssign) and isinstance(st.target, ast.Name)]
+            if all(n in names for n, _ in self._ALLOC):
+                return m.instantiate(_Cls(ta), [], {n: v for (n, _), v in zip(self._ALLOC, vals)})
+            if len(names) == len(vals):
+                return m.instantiate(_Cls(ta), vals, {})
+        except (AnchorMissing, CannotEval, _Rse):
+            pass
+        return _Obj("task_allocation", **{n: v for (n, _), v in zip(self._ALLOC, vals)})
+
     def _opaque_call(self, f, args, kwargs):
         last = f.label.split(".")[-1]
         if last == "scheduler_for" and self.scheduler is None:
@@ -1533,14 +1730,25 @@ class _ScheduleRun:
         return None if self.control is None else self.control.cls.name
 
 
-def loop_control_flow_rule(chk, rid, drv, it_params, tp_params):
+def _ctor_params(drv, cls):
+    """names of the constructor's parameters after self, in order: those of the class's own / inherited __init__, or the annotated fields of a dataclass / NamedTuple"""
+    m = _Machine(drv)
+    init = m.class_member(cls, "__init__")
+    if isinstance(init, (ast.FunctionDef, ast.AsyncFunctionDef)):
+        return params_of(init)[1:]
+    return [st.target.id for k in reversed(m.mro(cls)) for st in k.body if isinstance(st, ast.AnnAssign) and isinstance(st.target, ast.Name)]
+
+
+def loop_control_flow_rule(chk, rid, drv):
     """Which loop control a task gets and what it is constructed with, decided on VALUES: schedule_for is walked by the local machine (every module-level helper it calls is
     followed, requires_time_period_schedule included; IterationBased / TimePeriodBased / ScheduleHandle are instantiated by walking their own __init__) for representative tasks;
     the control object that results is inspected: its class, the constructor arguments it received (by the POSITION of the constructor's parameters, as O5.1 / O5.2 name them)
     and whether it is the object stored in the handle schedule_for returns. Field values are pairwise distinct (3 / 7 iterations, 30 / 120 seconds)."""
     sfn, rq = drv.func("schedule_for"), drv.func("requires_time_period_schedule")
-    W, I = it_params
-    Wt, T = tp_params
+    itp, tpp = _ctor_params(drv, drv.cls("IterationBased")), _ctor_params(drv, drv.cls("TimePeriodBased"))
+    if len(itp) < 2 or len(tpp) < 2:
+        raise AnchorMissing(f"the (warm-up, measurement) parameters of the constructors IterationBased({', '.join(itp)}) / TimePeriodBased({', '.join(tpp)})")
+    (W, I), (Wt, T) = itp[:2], tpp[:2]
     try:
         ri = _ScheduleRun(drv, {"warmup_iterations": 3, "iterations": 7})
         rt = _ScheduleRun(drv, {"warmup_time_period": 30, "time_period": 120})
@@ -1556,6 +1764,9 @@ def loop_control_flow_rule(chk, rid, drv, it_params, tp_params):
 
     def arg(r, cls_name, param, want, what):
         got = r.control.ctor.get(param, _MISSING) if r.kind() == cls_name else _MISSING
+        if _unknown(got) is not None:
+            chk.unknown(rid, f"{what}: the value schedule_for hands to the constructor is one the walk does not know ({got!r})", sfn)
+            return
         chk.ob(rid, what, got is not _MISSING and got == want and type(got) is type(want), sfn,
                f"{r.kind()}({', '.join(f'{k}={v!r}' for k, v in r.control.ctor.items())}) for a task with " + ("warm-up iterations 3, iterations 7" if r is ri else "warm-up period 30 s, period 120 s"))
 
@@ -1689,6 +1900,9 @@ def generator_rule(chk, rid, drv):
             chk.unknown(rid, f"{name}: the generator yields nothing on the representative control ({ended}; events: {fmt(ev_)})", gen)
             continue
         site = ys[0][2]
+        if not all(isinstance(y[1], tuple) for y in ys):
+            chk.unknown(rid, f"{name}: the generator yields {ys[0][1]!r}, not a tuple (scheduled, sample type, progress, runner, params): the members of the yielded value are not located", site)
+            continue
         idx = [ev_.index(y) for y in ys]
         segs = [ev_[:idx[0]]] + [ev_[idx[j - 1] + 1:idx[j]] for j in range(1, len(ys))]
         tail = ev_[idx[-1] + 1:] if name == "finite" else None
@@ -1770,7 +1984,7 @@ def iteration_control_rule(chk, rid, drv):
     (O5.3 fixes when it reads what), so the six clauses are statements about these sequences - whatever the counter is called, however the total is kept, whichever way round the
     comparisons are written."""
     IB = drv.cls("IterationBased")
-    for m_ in ("__init__", "start", "next", "completed", "sample_type", "percent_completed", "infinite"):
+    for m_ in ("start", "next", "completed", "sample_type", "percent_completed", "infinite"):
         _prop(drv, IB, m_)
     WI, II = 2, 3
     N = WI + II
@@ -1786,6 +2000,10 @@ def iteration_control_rule(chk, rid, drv):
         c.do("next")
     c.do("start")
     again = (c.read("completed"), c.read("sample_type"), c.read("percent_completed"))
+    lost = _unknown([d_ for d_, _, _ in seq], [p_ for _, _, p_ in seq], again[0], again[2])
+    if lost is not None:
+        chk.unknown(rid, f"IterationBased({WI}, {II}) driven through start() / next(): completed / percent_completed give a value the walk does not know ({lost!r})", IB)
+        return
     prog = [p_ for _, _, p_ in seq[:N]]
     kinds = [_sample_kind(st_) for _, st_, _ in seq[:N]]
     dones = [d_ for d_, _, _ in seq]
@@ -1801,9 +2019,12 @@ def iteration_control_rule(chk, rid, drv):
            f"progress of the {N} requests: {[round(p_, 4) if isinstance(p_, float) else p_ for p_ in prog]} (expected {[round((k + 1) / N, 4) for k in range(N)]}, ending at exactly 1)")
     inf = [(a, _ControlRun(drv, IB, a)) for a in ([WI, None], [WI, II], [0, 1])]
     got = [(a, r.read("infinite") if r.obj is not None else r.error) for a, r in inf]
+    if _unknown([g for _, g in got]) is not None:
+        chk.unknown(rid, f"IterationBased.infinite gives a value the walk does not know ({_unknown([g for _, g in got])!r})", _prop(drv, IB, "infinite"))
+        return
     chk.ob(rid, "infinite == iterations is None", [g for _, g in got] == [True, False, False], _prop(drv, IB, "infinite"), "; ".join(f"IterationBased({a[0]}, {a[1]}).infinite is {g!r}" for a, g in got))
     z, nz = _ControlRun(drv, IB, [0, 0]), _ControlRun(drv, IB, [0, 1])
-    chk.ob(rid, "W + I == 0 rejected", z.obj is None and nz.obj is not None, _prop(drv, IB, "__init__"),
+    chk.ob(rid, "W + I == 0 rejected", z.obj is None and nz.obj is not None, drv.methods(IB).get("__init__") or drv.methods(IB).get("__post_init__") or IB,
            f"IterationBased(0, 0) {'raises ' + str(z.error) if z.obj is None else 'is accepted'}; IterationBased(0, 1) {'raises ' + str(nz.error) if nz.obj is None else 'is accepted'}")
 
 
@@ -1812,7 +2033,7 @@ def time_control_rule(chk, rid, drv):
     with next() at chosen virtual times; after each call completed / sample_type / percent_completed are read. Comparator strictness at the exact boundaries is left open (the
     property allows the straddling request either side): probes lie 0.1 s before / after a boundary. No attribute or helper-property name of the class is consulted."""
     TB = drv.cls("TimePeriodBased")
-    for m_ in ("__init__", "start", "next", "completed", "sample_type", "percent_completed", "infinite"):
+    for m_ in ("start", "next", "completed", "sample_type", "percent_completed", "infinite"):
         _prop(drv, TB, m_)
     WT, TP, S = 10.0, 20.0, 100.0
     PROBES = [3.0, 9.9, 10.1, 15.0, 29.9, 30.1]  # seconds after start() at which next() is called
@@ -1834,6 +2055,10 @@ def time_control_rule(chk, rid, drv):
         chk.ob(rid, "elapsed == now - start", False, TB, f"TimePeriodBased({WT:g}, {TP:g}) {err}")
         return
     by = {d: (done, kind, p_) for d, done, kind, p_ in seq}
+    lost = _unknown([(done, p_) for _, done, _, p_ in seq])
+    if lost is not None:
+        chk.unknown(rid, f"TimePeriodBased({WT:g}, {TP:g}) driven through start() / next(): completed / percent_completed give a value the walk does not know ({lost!r})", TB)
+        return
 
     def pr(d):
         p_ = by[d][2]
@@ -1894,12 +2119,20 @@ def simple_schedulers_rule(chk, rid, sch):
             return f"raises {x.name()}"
 
     task = _Obj("task", clients=4, name="t")
+
+    def known(v, f, what):
+        if _unknown(v) is not None:
+            chk.unknown(rid, f"{what}: next(10.0) gives a value the walk does not know ({v!r})", f)
+        return _unknown(v) is None
+
     d = nxt(DS, [task, 4.0], 10.0)
-    chk.ob(rid, "deterministic: next == current + 1/theta", _close(d, 10.25), dn, f"theta = 4 requests/s: next(10.0) == {d!r} (expected 10.25)")
     p_ = nxt(PS, [task, 4.0], 10.0)
+    u0 = nxt(UT, [], 10.0)
+    if not (known(d, dn, "deterministic scheduler") and known(p_, pn, "Poisson scheduler") and known(u0, un, "unthrottled scheduler")):
+        return
+    chk.ob(rid, "deterministic: next == current + 1/theta", _close(d, 10.25), dn, f"theta = 4 requests/s: next(10.0) == {d!r} (expected 10.25)")
     chk.ob(rid, "poisson: next == current + expovariate(theta)", _close(p_, 10.0 + 7.0 / 4.0) and draws == [4.0], pn,
            f"theta = 4 requests/s, expovariate(l) := 7 / l: next(10.0) == {p_!r} (expected 11.75), expovariate called with {draws} (expected [4.0])")
-    u0 = nxt(UT, [], 10.0)
     chk.ob(rid, "unthrottled: next == 0", u0 == 0 and not isinstance(u0, bool), un, f"next(10.0) == {u0!r}")
 
 
@@ -1924,10 +2157,16 @@ def unthrottled_choice_rule(chk, rid, sch):
         return isinstance(r, _Obj) and r.cls is UT
 
     free, paced = walk(sf, task(None, None)), walk(sf, task(tt, None))
+    if _unknown(free, paced) is not None:
+        chk.unknown(rid, f"scheduler_for gives a value the walk does not know ({_unknown(free, paced)!r})", sf)
+        return
     chk.ob(rid, "unthrottled scheduler iff run_unthrottled(task)", is_unthrottled(free) and not is_unthrottled(paced), sf,
            f"task without target throughput: scheduler_for gives {free!r}; task with 100 ops/s: {paced!r}")
     rows = [((None, None), True), ((tt, None), False), ((tt, "deterministic"), False), ((tt, "poisson"), False)]
     got = [(a, walk(ru, task(*a))) for a, _ in rows]
+    if _unknown([g for _, g in got]) is not None:
+        chk.unknown(rid, f"run_unthrottled gives a value the walk does not know ({_unknown([g for _, g in got])!r})", ru)
+        return
     chk.ob(rid, "unthrottled requires target throughput is None", [g for _, g in got] == [w_ for _, w_ in rows], ru,
            "; ".join(f"target throughput {'100 ops/s' if a[0] is not None else None}, schedule {a[1]!r}: {g!r}" for a, g in got))
 
@@ -1947,6 +2186,9 @@ def ramp_up_formula_rule(chk, rid, drv):
             got.append(r.machine.load(r.handle, "ramp_up_wait_time", rw))
         except _Rse as x:
             got.append(f"raises {x.name()}")
+    if _unknown(got) is not None:
+        chk.unknown(rid, f"ScheduleHandle.ramp_up_wait_time gives a value the walk does not know ({_unknown(got)!r})", rw)
+        return
     chk.ob(rid, "ramp-up wait == ramp * (i / total)", _close(got[0], 8.0 * 5 / 8) and (got[1] == 0 and not isinstance(got[1], bool)), rw,
            f"ramp-up 8 s, client 5 of 8 (client 1 of 3 of its task): wait {got[0]!r} s (expected 5); without ramp-up: {got[1]!r} (expected 0)")
 
@@ -2052,6 +2294,9 @@ def parallel_defaults_rule(chk, rid, repo):
         all4 = {f: t.fields.get(f, _MISSING) for _, _, f in ROWS[0][1] + ROWS[1][1]}
         for param, key, field in checks:
             got = t.fields.get(field, _MISSING)
+            if _unknown(got) is not None:
+                chk.unknown(rid, f"parallel default '{key}': the value that reaches track.Task({field}=...) is one the walk does not know ({got!r})", pp)
+                continue
             chk.ob(rid, f"parallel default '{key}' -> parse_task({param}=...)", got is not _MISSING and got == given[key] and not isinstance(got, bool), pp,
                    f"parallel element {given}: the task inside is constructed with " + ", ".join(f"{f}={'<not passed>' if v is _MISSING else repr(v)}" for f, v in all4.items()),
                    key=f"esrally/track/loader.py:parse_parallel:default:{param}")
@@ -2108,7 +2353,7 @@ def run(chk):
         "64-row value table; the delegate schedulers and UnitAwareScheduler fed feedback sequences (gap between requests == weight*C/T, ops/s normalisation on every call, failed "
         "requests); AsyncExecutor.__call__ walked on a virtual clock up to its second request (timer started before the ramp-up wait, wait taken once, request due d after the END of "
         "the wait); Task.target_throughput on representative task parameters and its pattern on the regex syntax tree; the loader's parse_parallel / parse_task walked on plain "
-        "dicts (defaults of a parallel element, 16-row iteration / time-period mixing table); the progress aggregate printed for a step (table key and mean evaluated on sample records)."
+        "dicts (defaults of a parallel element, 16-row iteration / time-period mixing table); the progress aggregate printed for a step (Driver.update_samples walked on shipments of sample objects: the table and its keys are read off the driver object; the extracted mean evaluated on the resulting table)."
     )
     chk.not_decided = "the boundary request of time-based tasks, Poisson statistics, plugin schedulers, float rounding of progress."
     IB = drv.cls("IterationBased")
@@ -2119,16 +2364,12 @@ def run(chk):
     chk.rule("O5.1", "iteration-based progress: counter idiom (start: it = 0; next: it += 1; no other writer); completed == it >= W + I; warm-up == it < W; "
              "progress == (it + 1) / (W + I)", 6,
              "every iteration-based task: one request too many/few, the wrong number flagged warm-up, or progress not ending at exactly 1")
-    init = _prop(drv, IB, "__init__")
-    W, I = _param(init, 1), _param(init, 2)
     _section(chk, "O5.1", iteration_control_rule, chk, "O5.1", drv)
 
     # ---- O5.2 time-period guards --------------------------------------------------------------------------------------------------
     chk.rule("O5.2", "time-based progress: elapsed == now - start; warm-up == elapsed < Wt; completed == now >= start + (Wt + T) (direction only); start written only by start(); "
              "now only from the monotonic clock", 6,
              "a time-based task never stops / stops at once, flags the wrong side as warm-up, or returns to warm-up")
-    tinit = _prop(drv, TB, "__init__")
-    Wt, T = _param(tinit, 1), _param(tinit, 2)
     _section(chk, "O5.2", time_control_rule, chk, "O5.2", drv)
 
     # ---- O5.3 generator discipline -----------------------------------------------------------------------------------------------------
@@ -2148,7 +2389,7 @@ def run(chk):
     _section(chk, "O5.4", ramp_up_formula_rule, chk, "O5.4", drv)
     from rules.C02 import allocation_totals
 
-    allocation_totals(chk, "O5.4", drv)
+    _section(chk, "O5.4", allocation_totals, chk, "O5.4", drv)  # owned by rules/C02.py
     _section(chk, "O5.4", timer_before_rampup_rule, chk, "O5.4", drv, "the warm-up / time period would start after the ramp-up delay: client i runs ramp*i/total too long")
     _section(chk, "O5.4", ramp_up_placement_rule, chk, "O5.4", drv)
 
@@ -2163,12 +2404,12 @@ def run(chk):
              "else finite parameter source => time-based; the chosen control receives (warm-up, measurement) from the task fields of the same kind", 8,
              "explicit iterations ignored (task never stops after W+I requests) or explicit time periods ignored")
     _section(chk, "O5.5", loop_control_choice_rule, chk, "O5.5", drv)
-    _section(chk, "O5.5", loop_control_flow_rule, chk, "O5.5", drv, (W, I), (Wt, T))
+    _section(chk, "O5.5", loop_control_flow_rule, chk, "O5.5", drv)
     # params partitioned with the task-local client index
-    partition_call_rule(chk, "O5.5", drv)
+    _section(chk, "O5.5", partition_call_rule, chk, "O5.5", drv)
     from rules.C01 import complete_read_exemption_rule
 
-    complete_read_exemption_rule(chk, "O5.5", drv)
+    _section(chk, "O5.5", complete_read_exemption_rule, chk, "O5.5", drv)  # owned by rules/C01.py
     _section(chk, "O5.5", parallel_defaults_rule, chk, "O5.5", repo)
     # ---- obligations added after the defect hunt (kept last: an anchor they cannot find must not hide the verdicts above) ----------------------------------
     _section(chk, "O5.4", schedule_anchor_rule, chk, "O5.4", drv)  # F40
@@ -2176,7 +2417,7 @@ def run(chk):
     chk.rule("O5.7", "the progress reported for a running step is monotone by construction: the per-step table of most recent samples is keyed by (client, task), and the mean "
              "over it is not taken over the clients that have reported so far only (or the reported value is a per-step high-water mark)", 4,
              "reported progress decreases: a client that runs two tasks of a parallel element in turn (100% -> 25%), or a slower client whose first samples arrive later (60% -> 40%)")
-    progress_aggregate_rule(chk, "O5.7", drv)  # F47
+    _section(chk, "O5.7", progress_aggregate_rule, chk, "O5.7", drv)  # F47
 
 
 from sa.selftest import V  # noqa: E402
@@ -2384,4 +2625,57 @@ VARIANTS = [
      V("", "keep", _D, "        self._now = time.perf_counter()", "        self._now = _clock()", count=2)],
     [V("time control: aliased import of the wall clock", "break", _D, "import time\n", "import time\nfrom time import time as _clock\n", "O5.2"),
      V("", "break", _D, "        self._now = time.perf_counter()", "        self._now = _clock()", count=2)],
+    # ---- hardening round 3: shapes of the second benign round ("keep") and the same shapes with the defect inside ("break") ----------------------------------------------------
+    # O5.7: the progress table and its key are read off a WALK of update_samples (no loop / subscript-store shape is matched)
+    V("progress table filled by update() with a comprehension, guard dropped (same known findings, same keys)", "keep", _D,
+      "        if len(samples) > 0:\n            self.raw_samples += samples\n            # We need to check all samples, they will be from different clients\n            for s in samples:\n                self.most_recent_sample_per_client[s.client_id] = s\n",
+      "        self.raw_samples.extend(samples)\n        self.most_recent_sample_per_client.update({s.client_id: s for s in samples})\n"),
+    V("progress table filled by update(): keyed by the task only", "break", _D,
+      "            for s in samples:\n                self.most_recent_sample_per_client[s.client_id] = s\n",
+      "            self.most_recent_sample_per_client.update({s.task: s for s in samples})\n", "O5.7"),
+    V("progress table filled by setdefault(): the FIRST sample of a client is kept, progress never advances", "break", _D,
+      "                self.most_recent_sample_per_client[s.client_id] = s\n", "                self.most_recent_sample_per_client.setdefault(s.client_id, s)\n", "O5.7"),
+    [V("progress table filled by a helper method, table attribute renamed (same known findings, same keys)", "keep", _D, "                self.most_recent_sample_per_client[s.client_id] = s\n", "                self._remember(s)\n"),
+     V("", "keep", _D, "    def update_progress_message(self, task_finished=False):\n", "    def _remember(self, newest):\n        self.latest_sample_of[newest.client_id] = newest\n\n    def update_progress_message(self, task_finished=False):\n"),
+     V("", "keep", _D, r"self\.most_recent_sample_per_client\b", "self.latest_sample_of", count=3, regex=True)],
+    # O5.4: the UnitAwareScheduler construction is located by data flow from scheduler_for's task parameter (through a helper with other parameter names and order)
+    [V("unit-aware scheduler built by an extracted helper (parameters renamed and reordered)", "keep", _S, "        return UnitAwareScheduler(task, scheduler_class)\n", "        return _unit_aware(scheduler_class, task)\n"),
+     V("", "keep", _S, "def run_unthrottled(task):\n", "def _unit_aware(delegate, for_task):\n    return UnitAwareScheduler(for_task, delegate)\n\n\ndef run_unthrottled(task):\n")],
+    [V("unit-aware scheduler built by an extracted helper, weight dropped from theta", "break", _S, "        return UnitAwareScheduler(task, scheduler_class)\n", "        return _unit_aware(scheduler_class, task)\n", "O5.4"),
+     V("", "break", _S, "def run_unthrottled(task):\n", "def _unit_aware(delegate, for_task):\n    return UnitAwareScheduler(for_task, delegate)\n\n\ndef run_unthrottled(task):\n"),
+     V("", "break", _S, "            target_throughput = self.task.target_throughput.value / self.task.clients / self.current_weight", "            target_throughput = self.task.target_throughput.value / self.task.clients")],
+    [V("unit-aware scheduler built by keyword in a helper, ops/s normalisation only for the first request", "break", _S, "        return UnitAwareScheduler(task, scheduler_class)\n", "        return _unit_aware(task, scheduler_class)\n", "O5.4"),
+     V("", "break", _S, "def run_unthrottled(task):\n", "def _unit_aware(for_task, delegate):\n    return UnitAwareScheduler(scheduler_class=delegate, task=for_task)\n\n\ndef run_unthrottled(task):\n"),
+     V("", "break", _S, "                if expected_unit == \"ops/s\":\n                    weight = 1\n                    if self.first_request:", "                if expected_unit == \"ops/s\" and self.first_request:\n                    weight = 1\n                    if self.first_request:")],
+    # executor walk: diagnostics kept next to the pacing statements (a collections table, arithmetic on a value the machine does not know) do not end the walk
+    [V("executor: diagnostics counters (collections.Counter / defaultdict) and a wall-clock skew next to the pacing", "keep", _D, "        schedule_start = time.perf_counter() if rampup_wait_time else total_start\n",
+       "        schedule_start = time.perf_counter() if rampup_wait_time else total_start\n        issued = collections.Counter()\n        delayed = collections.defaultdict(int)\n        skew = time.time() - total_start\n        self.logger.debug(\"wall clock skew [%s]\", skew * 1000)\n"),
+     V("", "keep", _D, "                    if rest > 0:\n                        await asyncio.sleep(rest)\n", "                    if rest > 0:\n                        delayed[sample_type] += 1\n                        await asyncio.sleep(rest)\n                issued[sample_type] += 1\n")],
+    [V("executor: diagnostics counters, schedule anchored before the ramp-up wait (F40 next to the counters)", "break", _D, "        schedule_start = time.perf_counter() if rampup_wait_time else total_start\n",
+       "        schedule_start = total_start\n        issued = collections.Counter()\n", "O5.4"),
+     V("", "break", _D, "                    if rest > 0:\n                        await asyncio.sleep(rest)\n", "                    if rest > 0:\n                        await asyncio.sleep(rest)\n                issued[sample_type] += 1\n")],
+    [V("executor: sleep-until shortened by a diagnostics counter (requests issued early)", "break", _D,
+       "        schedule_start = time.perf_counter() if rampup_wait_time else total_start\n", "        schedule_start = time.perf_counter() if rampup_wait_time else total_start\n        issued = collections.Counter()\n", "O5.4"),
+     V("", "break", _D, "                    rest = absolute_expected_schedule_time - time.perf_counter()\n", "                    issued[sample_type] += 1\n                    rest = absolute_expected_schedule_time - time.perf_counter() - issued[sample_type]\n")],
+    # the allocation is the module's own TaskAllocation (whatever kind of class it is)
+    V("TaskAllocation as a dataclass (generated constructor, decorator with arguments)", "keep", _D,
+      "class TaskAllocation:\n    def __init__(self, task, client_index_in_task, global_client_index, total_clients):\n        \"\"\"\n\n        :param task: The current task which is always a leaf task.\n        :param client_index_in_task: The task-specific index for the allocated client.\n        :param global_client_index:  The globally unique index for the allocated client across\n                                     all concurrently executed tasks.\n        :param total_clients: The total number of clients executing tasks concurrently.\n        \"\"\"\n        self.task = task\n        self.client_index_in_task = client_index_in_task\n        self.global_client_index = global_client_index\n        self.total_clients = total_clients\n",
+      "@dataclass(eq=False, repr=False)\nclass TaskAllocation:\n    task: track.Task\n    client_index_in_task: int\n    global_client_index: int\n    total_clients: int\n"),
+    [V("TaskAllocation as a dataclass, ramp-up slot from the task-local index", "break", _D,
+       "class TaskAllocation:\n    def __init__(self, task, client_index_in_task, global_client_index, total_clients):\n        \"\"\"\n\n        :param task: The current task which is always a leaf task.\n        :param client_index_in_task: The task-specific index for the allocated client.\n        :param global_client_index:  The globally unique index for the allocated client across\n                                     all concurrently executed tasks.\n        :param total_clients: The total number of clients executing tasks concurrently.\n        \"\"\"\n        self.task = task\n        self.client_index_in_task = client_index_in_task\n        self.global_client_index = global_client_index\n        self.total_clients = total_clients\n",
+       "@dataclass(eq=False, repr=False)\nclass TaskAllocation:\n    task: track.Task\n    client_index_in_task: int\n    global_client_index: int\n    total_clients: int\n", "O5.4"),
+     V("", "break", _D, "            return ramp_up_time_period * (self.task_allocation.global_client_index / self.task_allocation.total_clients)", "            return ramp_up_time_period * (self.task_allocation.client_index_in_task / self.task_allocation.total_clients)")],
+    V("TaskAllocation attributes renamed consistently", "keep", _D, r"\bclient_index_in_task\b", "task_local_index", count=7, regex=True),
+    # O5.6: the throughput pattern is judged by what it captures (anchored form, value sub-group non-capturing)
+    V("throughput pattern anchored at the start, inner group non-capturing", "keep", _T, "re.compile(r\"(?P<value>(\\d*\\.)?\\d+)\\s(?P<unit>\\w+/s)\")", "re.compile(r\"^(?P<value>(?:\\d*\\.)?\\d+)\\s(?P<unit>\\w+/s)\")"),
+    V("throughput pattern anchored at the start, integer part outside the value group", "break", _T, "re.compile(r\"(?P<value>(\\d*\\.)?\\d+)\\s(?P<unit>\\w+/s)\")", "re.compile(r\"^(?:\\d*\\.)?(?P<value>\\d+)\\s(?P<unit>\\w+/s)\")", "O5.6"),
+    # executor walk: the constructor parameter that receives the schedule handle is found by behaviour when the construction site is not followed by data flow
+    V("executor constructed from an unpacked argument tuple", "keep", _D,
+      "            async_executor = AsyncExecutor(\n                client_id, task, schedule, es, self.sampler, self.cancel, self.complete, task.error_behavior(self.abort_on_error)\n            )\n",
+      "            executor_args = (client_id, task, schedule, es, self.sampler, self.cancel, self.complete, task.error_behavior(self.abort_on_error))\n            async_executor = AsyncExecutor(*executor_args)\n"),
+    [V("executor constructed from an unpacked argument tuple, timer started after the ramp-up wait", "break", _D,
+       "            async_executor = AsyncExecutor(\n                client_id, task, schedule, es, self.sampler, self.cancel, self.complete, task.error_behavior(self.abort_on_error)\n            )\n",
+       "            executor_args = (client_id, task, schedule, es, self.sampler, self.cancel, self.complete, task.error_behavior(self.abort_on_error))\n            async_executor = AsyncExecutor(*executor_args)\n", "O5.4"),
+     V("", "break", _D, "        self.schedule_handle.start()\n        rampup_wait_time = self.schedule_handle.ramp_up_wait_time\n        if rampup_wait_time:\n            self.logger.debug(\"client id [%s] waiting [%.2f]s for ramp-up.\", self.client_id, rampup_wait_time)\n            await asyncio.sleep(rampup_wait_time)\n",
+       "        rampup_wait_time = self.schedule_handle.ramp_up_wait_time\n        if rampup_wait_time:\n            self.logger.debug(\"client id [%s] waiting [%.2f]s for ramp-up.\", self.client_id, rampup_wait_time)\n            await asyncio.sleep(rampup_wait_time)\n        self.schedule_handle.start()\n")],
 ]
